@@ -21,6 +21,7 @@ built to make a *broken* nonce collide:
 from mon.core.merge import merge, need
 from mon.core.util import Counter, h64, rng
 from mon.engines import lockstep as L
+from mon.engines import adversary as A
 from mon.engines import traffic as T
 from mon.props import c05
 
@@ -41,7 +42,9 @@ def plan(tier, seed):
         for i in range(6):
             shards.append({"kind": "mixed", "tier": tier, "seed": seed, "shard": i, "n": 2, "subprocess": True})
         shards.append({"kind": "idlespin", "tier": tier, "seed": seed, "shard": 0, "idle": 1300.0, "spins": 70000, "subprocess": True})
+        shards.append({"kind": "livespin", "tier": tier, "seed": seed, "shard": 0, "spins": 70000, "subprocess": True})
     else:
+        shards.append({"kind": "livespin", "tier": tier, "seed": seed, "shard": 0, "spins": 140000, "subprocess": True})
         for i in range(3):
             shards.append({"kind": "idlespin", "tier": tier, "seed": seed, "shard": i, "idle": [1300.0, 2500.0, 4000.0][i], "spins": [70000, 140000, 200000][i],
                            "subprocess": True})
@@ -244,6 +247,63 @@ def run_idlespin(cfg, out):
         return run.c.get("wire_total", 0)
 
 
+def run_livespin(cfg, out):
+    """the peer is a conforming implementation that acknowledges every datagram at once: the client reads the ack at the very
+    clock reading it sent at (it calls update() twice per frame), i.e. it measures a round trip of exactly 0, hundreds of times.
+    Then the peer falls silent (the ack field freezes) while the application calls send()/update() tens of thousands of times
+    inside one clock second.  Whatever the library derives from its latency measurement, the rate cap holds and no
+    (time, seq, ack) triple repeats.  The instant peer is the monitor itself, sealing keep-alives under the session key."""
+    r = rng("C03", cfg["seed"], "livespin", cfg["shard"])
+    with T.Run(r, dt=1 / 60, light=True, ctxt_setup=lambda ctxt: (ctxt.setConnectionTimeout(600.0), ctxt.setMessageTimeout(0.002))) as run:
+        w = run.world
+        w.net.heal(0.002)
+        c = w.add_client()
+        c.udp.setMessageTimeout(0.002)
+        c = w.connect_client(c)
+        w.step(30)
+        sc = run.sconn(c)
+        key = c.udp.conn.session_key_bytes
+        state = {"seq": int(sc.seq_sending) + 100, "mseq": int(sc.seq_message) + 100, "on": True, "acks": 0}
+
+        def instant_peer(direction, addr, d, info):
+            if direction == "c2s" and addr == c.addr:
+                if state["on"] and len(d) >= 20:
+                    h = L.parse_header(d)
+                    state["seq"] = state["seq"] % 65535 + 1
+                    state["mseq"] = state["mseq"] % 65535 + 1
+                    reply = A.seal(key, "s2c", 4, state["seq"], h[2], 0xFFFFFFFF, [(state["mseq"], 4, b"")], int(w.clock.now))
+                    c.sock.fifo.append((reply, "honest"))
+                    state["acks"] += 1
+                return "drop"
+            if direction == "s2c" and addr == c.addr:
+                return "drop"                     # the library's own server end is out of the picture from here on
+            return None
+        w.net.filters.append(instant_peer)
+        c.updates_per_step = 2
+        for k in range(400):
+            c.udp.send(L.make_payload(1, k, 16), retry=0)
+            w.step()
+        out["counters"].inc("livespin_instant_acks", state["acks"])
+        out["samples"].append({"scenario": "livespin", "measured_latency_after_instant_acks": c.udp.conn.latency, "send_interval": c.udp.conn.send_interval})
+        # the peer falls silent just after a second boundary
+        state["on"] = False
+        c.updates_per_step = 1
+        w.clock.now = float(int(w.clock.now) + 1) + 0.001
+        n0 = run.c.get("wire_total", 0)
+        step = 0.95 / cfg["spins"]
+        for k in range(cfg["spins"]):
+            if c.udp.conn is not None:
+                c.udp.send(L.make_payload(1, 1000 + k, 16), retry=0)
+            w.step(1, dt_override=step)
+        burst = run.c.get("wire_total", 0) - n0
+        out["counters"].inc("livespin_spins", cfg["spins"])
+        out["counters"].inc("livespin_datagrams_emitted_within_the_second", burst)
+        out["distinct"].add(h64("livespin", cfg["spins"]))
+        out["samples"].append({"scenario": "livespin", "update_calls_within_one_clock_second": cfg["spins"], "datagrams_emitted_within_that_second": burst})
+        finish_run(run, out, {"kind": "livespin"})
+        return run.c.get("wire_total", 0)
+
+
 def run_mixed(cfg, out):
     total = 0
     for case in range(cfg["n"]):
@@ -301,12 +361,26 @@ def run_mixed(cfg, out):
                         w.net.set(c2s=L.Policy(outage=r.random() < 0.5, delay=(0.004, 0.004)), s2c=L.Policy(outage=r.random() < 0.5, delay=(0.004, 0.004)))
                         w.step(r.randint(30, 200))
                         w.net.heal(0.004)
-                ending = ["goodbye-unanswered", "server-times-out-while-sending", "graceful", "goodbye-unanswered", "server-times-out-while-sending"][(cfg["shard"] + 2 * case + cfg["seed"]) % 5]
+                ending = ["goodbye-unanswered", "server-times-out-while-sending", "blackout-with-pending-sends", "graceful", "goodbye-unanswered",
+                          "server-times-out-while-sending", "blackout-with-pending-sends"][(cfg["shard"] + 2 * case + cfg["seed"]) % 7]
                 run.c.inc("ending_" + ending)
                 if ending == "graceful":
                     # a graceful disconnect travels encrypted too
                     c.udp.disconnect()
                     w.step(30)
+                elif ending == "blackout-with-pending-sends" and run.open(c):
+                    # retried messages are pending when the server falls silent for longer than the client's 5 s: whatever the
+                    # client does about it (DROPPED today), nothing it still holds goes out in clear
+                    for _k in range(4):
+                        run.app.send(c, "client", r.choice([40, 300, 1800]), r.choice([-1, -1, 1]), with_cb=False)
+                    w.step(2)
+                    w.net.set(c2s=L.Policy(outage=True), s2c=L.Policy(outage=True))
+                    n0 = run.c.get("wire_c2s", 0)
+                    w.step(int(7.5 / w.dt))
+                    run.c.inc("blackouts_with_pending_sends")
+                    run.c.inc("datagrams_during_blackout", run.c.get("wire_c2s", 0) - n0)
+                    w.net.heal(0.004)
+                    w.step(20)
                 elif ending == "goodbye-unanswered" and run.open(c):
                     # the application says goodbye and blocks in waitForDisconnect() while the server is unreachable, or its
                     # acks are lost: whatever the client repeats meanwhile is sealed under fresh nonces
@@ -341,7 +415,7 @@ def run_mixed(cfg, out):
 
 def run_shard(cfg):
     out = {"violations": [], "counters": Counter(), "samples": [], "distinct": set()}
-    n = {"silent": run_silent, "burst": run_burst, "mirror": run_mirror, "mixed": run_mixed, "idlespin": run_idlespin}[cfg["kind"]](cfg, out)
+    n = {"silent": run_silent, "burst": run_burst, "mirror": run_mirror, "mixed": run_mixed, "idlespin": run_idlespin, "livespin": run_livespin}[cfg["kind"]](cfg, out)
     return {"evaluations": n, "distinct": sorted(out["distinct"]), "counters": dict(out["counters"]),
             "violations": out["violations"][:60], "samples": out["samples"]}
 
@@ -351,7 +425,7 @@ def finish(tier, seed, results):
     inconclusive = []
     need(m["counters"], ["wire_gcm", "nonces_recorded", "wire_server_hello_clear", "silent_peer_datagrams", "silent_wraps",
                          "mirror_same_time_seq_ack_in_both_directions", "wire_c2s", "wire_s2c", "idlespin_spins",
-                         "client_hello_replayed_after_key_agreement", "client_wait_for_disconnect_calls", "datagrams_during_wait_for_disconnect", "failed_connects_with_early_sends",
+                         "client_hello_replayed_after_key_agreement", "client_wait_for_disconnect_calls", "datagrams_during_wait_for_disconnect", "failed_connects_with_early_sends", "blackouts_with_pending_sends", "livespin_spins", "livespin_instant_acks",
                          "server_timed_out_client_while_sending"], inconclusive)
     cov = {
         "evaluations": m["evaluations"],
